@@ -296,7 +296,7 @@ def shard_replay(drv, shard, case):
     import pickle
 
     if isinstance(case, dict) and case.get("pyopt"):
-        st = run_opt_pass(drv.ID, "quick", [shard])
+        st = run_opt_pass(drv.ID, "quick", [shard], mode="O" if case.get("pyopt") == 1 else "debuglog")
         key = json.dumps(case, sort_keys=True, default=repr)
         return [v for v in st.violations if json.dumps(v["case"], sort_keys=True, default=repr) == key]
 
@@ -335,7 +335,7 @@ def _work_file(prefix, suffix):
     return path
 
 
-def run_opt_pass(prop_id, tier, shards):
+def run_opt_pass(prop_id, tier, shards, mode="O"):
     """Run `shards` of the driver in a child interpreter started with -O (assert statements and `if __debug__` blocks
     removed) and return its statistics; every violation's case is tagged so that it is replayed in the same mode."""
     import pickle
@@ -346,9 +346,9 @@ def run_opt_pass(prop_id, tier, shards):
     path = _work_file("opt-", ".json")
     try:
         Path(path).write_text(json.dumps(shards))
-        r = subprocess.run([sys.executable, "-O", "-m", "mc.optpass", "shards", prop_id, tier, path], cwd=str(VERIF), capture_output=True, text=True)
+        r = subprocess.run(_env_cmd(mode) + ["-m", "mc.optpass", "shards", prop_id, tier, path], cwd=str(VERIF), capture_output=True, text=True, env=_env_env(mode))
         if r.returncode != 0 or not os.path.exists(path + ".out"):
-            st.extra["harness_errors"] = [f"-O pass failed: {r.stderr[-1500:]}"]
+            st.extra["harness_errors"] = [f"environment pass '{mode}' failed: {r.stderr[-1500:]}"]
             return st
         with open(path + ".out", "rb") as f:
             st = pickle.load(f)
@@ -356,30 +356,46 @@ def run_opt_pass(prop_id, tier, shards):
         for q in (path, path + ".out"):
             if os.path.exists(q):
                 os.unlink(q)
+    tag = "O" if mode == "O" else "D"
+    note = "[python -O] " if mode == "O" else "[DEBUG logging on] "
     for v in st.violations:
-        v["case"] = dict(v["case"], pyopt=1)
-        v["msg"] = "[python -O] " + v["msg"]
-        v["label"] = "O-" + v["label"]
-        v["fingerprint"] = "O-" + v["fingerprint"]
-    st.label_counts = {"O-" + k: n for k, n in st.label_counts.items()}
-    st.fp_counts = {"O-" + k: n for k, n in st.fp_counts.items()}
+        v["case"] = dict(v["case"], pyopt=1 if mode == "O" else 2)
+        v["msg"] = note + v["msg"]
+        v["label"] = f"{tag}-" + v["label"]
+        v["fingerprint"] = f"{tag}-" + v["fingerprint"]
+    st.label_counts = {f"{tag}-" + k: n for k, n in st.label_counts.items()}
+    st.fp_counts = {f"{tag}-" + k: n for k, n in st.fp_counts.items()}
     parts = {}
     for k, d in st.parts.items():
-        parts["pyopt:" + k] = d
+        parts[("pyopt:" if mode == "O" else "debuglog:") + k] = d
+    if mode != "O":
+        st.extra["debuglog_enabled"] = st.extra.pop("pyopt_asserts_disabled", 0) * 0 + 1
     st.parts = parts
     st.extra.pop("cpu_s", None)
     return st
 
 
+def _env_cmd(mode):
+    return [sys.executable, "-O"] if mode == "O" else [sys.executable]
+
+
+def _env_env(mode):
+    env = dict(os.environ)
+    if mode != "O":
+        env["VERIF_DEBUGLOG"] = "1"  # mc.optpass switches DEBUG logging on for the root logger before eyecite is imported
+    return env
+
+
 def replay_opt(prop_id, case):
     import pickle
 
+    mode = "O" if case.get("pyopt") == 1 else "debuglog"
     path = _work_file("optr-", ".json")
     try:
         c = dict(case)
         c.pop("pyopt", None)
         Path(path).write_text(json.dumps(c))
-        r = subprocess.run([sys.executable, "-O", "-m", "mc.optpass", "replay", prop_id, path], cwd=str(VERIF), capture_output=True, text=True)
+        r = subprocess.run(_env_cmd(mode) + ["-m", "mc.optpass", "replay", prop_id, path], cwd=str(VERIF), capture_output=True, text=True, env=_env_env(mode))
         if r.returncode != 0 or not os.path.exists(path + ".out"):
             raise RuntimeError(f"-O replay failed: {r.stderr[-800:]}")
         with open(path + ".out", "rb") as f:
@@ -389,7 +405,7 @@ def replay_opt(prop_id, case):
             if os.path.exists(q):
                 os.unlink(q)
     for x in out:
-        x["msg"] = "[python -O] " + x["msg"]
+        x["msg"] = ("[python -O] " if mode == "O" else "[DEBUG logging on] ") + x["msg"]
     return out
 
 
@@ -537,7 +553,9 @@ def run_check(prop_id, tier="quick", seed=0, jobs=None):
     shards = drv.shards(tier, seed)
     st = run_shards(drv, shards, seed=seed, jobs=jobs)
     if hasattr(drv, "opt_shards"):
-        st.merge(run_opt_pass(prop_id, tier, drv.opt_shards(tier)))
+        osh = drv.opt_shards(tier)
+        st.merge(run_opt_pass(prop_id, tier, osh))
+        st.merge(run_opt_pass(prop_id, tier, osh, mode="debuglog"))
     if hasattr(drv, "finalize"):
         drv.finalize(st, tier, seed)
     herr = st.extra.get("harness_errors")
